@@ -2,16 +2,22 @@
 (* Scripted runs of the real processAttack (in-process driver of package main, op "pump"): the outcome must be
    the one Pump!Expected computes from the script. *)
 EXTENDS Integers, Sequences, FiniteSets, TLC, TraceKit
+CONSTANT Strict
 P == INSTANCE Pump WITH MaxResults <- 0, MaxSignals <- 0, EncodeMayFail <- FALSE,
         pending <- << >>, produced <- 0, sigbuf <- 0, sent <- 0, stopped <- FALSE, closedCh <- FALSE,
         encoded <- << >>, taken <- << >>, ppc <- "", perr <- ""
 VARIABLES l
 TInit == InitHighWater /\ l = 1
 TReset == IsEv(l, "Reset") /\ l' = l + 1
+\* (implementation-shaped: with Strict = FALSE only the clause C02 itself gives - nothing received is lost or written twice
+\* unless encoding failed - is enforced; the exact outcome is the model-drift report)
 TPump == /\ IsEv(l, "Pump")
          /\ LET e == Ev(l)
                 x == P!Expected(e.steps)
-            IN /\ e.encoded = x.enc                           \* every result received before the exit was written once, in order
+            IN IF ~Strict
+               THEN (e.err = "" => \A i, j \in 1..Len(e.encoded) : i < j => e.encoded[i] < e.encoded[j])
+               ELSE
+               /\ e.encoded = x.enc                           \* every result received before the exit was written once, in order
                /\ e.returned = x.done                         \* it returns exactly on close, second signal or encode failure
                /\ e.err = x.err
                /\ e.stop_first = (x.sigs = 0)                 \* the first signal (and only a signal) stops the attack
